@@ -151,8 +151,13 @@ fn params_case<const N: usize>(allow_long: bool) {
         }
         Err(_) => assert!(any_long, "C14: a parameter list with unknown entries was rejected"),
     }
-    kani::cover!(w == 2 && n == N && !any_long);
+    if N >= 2 {
+        kani::cover!(w == 2 && n == N && !any_long);
+    }
     kani::cover!(w == 0 && n == N && !any_long);
+    if allow_long {
+        kani::cover!(any_long);
+    }
 }
 
 #[kani::proof]
